@@ -61,7 +61,9 @@ SCHEMA_FNS = [SP + n for n in ('basic_key', 'identifier', 'get_required', 'get_o
                                'start_section', 'end_section', 'start_multisection', 'end_multisection',
                                'start_abstracttype', 'end_abstracttype', 'start_sectiontype', 'end_sectiontype',
                                'push_prefix', 'pop_prefix', 'get_classname', 'loadComponent', 'end_multikey',
-                               'characters_default')] + ['schema.SchemaParser.extendSchema']
+                               'characters_default')] + ['schema.SchemaParser.extendSchema'] + \
+             ['schema.ComponentParser.' + n for n in ('_check_not_toplevel', 'start_key', 'start_multikey', 'start_section',
+                                                     'start_multisection')]
 
 PROPS = {
     'C01': {'functions': INFO_MATCH + MATCHER + LOADER_CFG, 'standin': True},
